@@ -4,6 +4,7 @@
 # Development-time tool (patches /repo's working tree temporarily; /repo must be clean and no other check may be running).
 cd /repo || exit 2
 git diff --quiet || { echo "repo dirty"; exit 2; }
+SAVE=$(mktemp -d); cp -r /verif/evidence "$SAVE/"   # the runs below rewrite evidence files: put the current ones back afterwards
 for d in /verif/seeded/${1:-*}/; do
   n=$(basename "$d"); id=${n:0:3}
   p="$d/patch.rebased.diff"; [ -f "$p" ] || p="$d/patch.diff"
@@ -13,4 +14,4 @@ for d in /verif/seeded/${1:-*}/; do
   git checkout -- .
   if [ -n "$out" ]; then echo "$n CAUGHT $out"; else echo "$n MISSED"; fi
 done
-git -C /verif checkout -- evidence 2>/dev/null
+cp "$SAVE"/evidence/*.json /verif/evidence/; rm -rf "$SAVE"
